@@ -500,7 +500,7 @@ PROPS["C05"]["assumptions"] = PROPS["C05"]["assumptions"] + E1_ASSUME[:3]
 # property) replayed in lock-step against the real kernel (tmpfs directory under the run's scratch directory)
 ENGINES["conform"] = "conformance of the environment model: file-system call sequences, lcdb histories and lock sequences executed on harness/vfs.c and on the kernel side by side, every observation compared"
 PROPS["C20"]["stages"].append(dict(name="conform-lock", driver="conform", flavour="asan", args=["--parts", "lock"], weight=0.3,
-                                   quick=["--cfgs", "B1", "--locklen", "4"], thorough=["--cfgs", "B1;B1,reuse=1", "--locklen", "5"]))
+                                   quick=["--cfgs", "B1", "--locklen", "4"], thorough=["--cfgs", "B1", "--locklen", "5"]))
 PROPS["C20"]["rule"] += ("; real-kernel stage: all lock sequences (<= 4 -> 5 steps, ending in an observation) on a real tmpfs directory where the 'other process' is a freshly exec'ed process calling the real ldb_open: "
                          "it opens the database iff this process holds no handle (kernel fcntl semantics, not the model's); the model's verdict for the same sequence is compared step by step")
 PROPS["C20"]["assumptions"] = [a.replace("the foreign process is simulated by the VFS", "the foreign process is simulated by the VFS in stage life and is a real exec'ed process on the real kernel in stage conform-lock")
